@@ -39,7 +39,7 @@ class WorldScenario(BaseScenario):
         "C02": ["reopen_fresh", "move", "copy_same", "copy_cross", "rm_parent", "rm_ws"],
         "C05": ["rm_ws", "rm_parent", "rm_refused", "rm_data_in_2_pgs", "rm_data_in_1_pgs", "pg_emptied", "lookup_removed_judged"],
         "C06": ["dup_live_same", "dup_live_other", "dup_removed", "dup_pg", "dup_fresh", "copy_same", "copy_cross"],
-        "C09": ["reopen_fresh", "copy_same", "rm_ws"],
+        "C09": ["reopen_fresh", "copy_same", "rm_ws", "retype", "retype_old_type_shared"],
         "C12": ["copy_same", "copy_cross", "copy_of_copy"],
     }
 
